@@ -168,8 +168,13 @@ Definition hist_model (c : list param * list str * list call) : list (option val
                  dict(args=[7], kwargs=[], force=False, only=True, store=None),
                  dict(args=[5], kwargs=[], force=True, only=False, store=[None]),
                  dict(args=[5], kwargs=[], force=False, only=False, store=None)]
+        # both control keywords in one call (a look-up that a caller's global `force` flag is forwarded into): it stays a look-up
+        both = [dict(args=[1], kwargs=[], force=True, only=True, store=None), dict(args=[1], kwargs=[], force=False, only=False, store=None),
+                dict(args=[1], kwargs=[], force=True, only=True, store=None), dict(args=[1], kwargs=[], force=False, only=True, store=None),
+                dict(args=[2], kwargs=[['b', 5]], force=True, only=False, store=['given']), dict(args=[2, 5], kwargs=[], force=True, only=True, store=None)]
         return [dict(sig=sig, ignore=[], calls=calls), dict(sig=sig, ignore=['c'], calls=calls),
-                dict(sig=sig, ignore=[], calls=calls, cache='json'), dict(sig=sig, ignore=['c'], calls=calls, cache='json')]
+                dict(sig=sig, ignore=[], calls=calls, cache='json'), dict(sig=sig, ignore=['c'], calls=calls, cache='json'),
+                dict(sig=sig, ignore=[], calls=both), dict(sig=sig, ignore=[], calls=both, cache='json')]
 
     def gen(self, rng, tier):
         out = []
